@@ -253,6 +253,28 @@ def r21_ready_macro(text):
     return text, k
 
 
+def r22_canonical_local(text, pattern, canonical):
+    """R22: the local bound by the statement matching `pattern` (group 1 = its name) is renamed to `canonical` throughout the body
+    (contracts and loop invariants written in unit.py speak about locals by name). No-op if it already has that name; refuses
+    (Undecided) if `canonical` is already used for something else."""
+    m = mask(text)
+    mm = re.search(pattern, m)
+    if not mm:
+        return text, 0
+    old = mm.group(1)
+    if old == canonical:
+        return text, 0
+    if re.search(r"\b%s\b" % re.escape(canonical), m):
+        raise Undecided("R22: cannot rename local %s to %s: the name is already in use" % (old, canonical))
+    out, last = [], 0
+    for w in re.finditer(r"(?<![\w.])%s\b" % re.escape(old), m):
+        out.append(text[last:w.start()])
+        out.append(canonical)
+        last = w.end()
+    out.append(text[last:])
+    return "".join(out), 1
+
+
 def r3_await(text, arg="Tracked(tr)"):
     return sub(text, r"\.\s*await\b", ".vx_await(%s)" % arg, count=-1, name="R3")
 
@@ -765,6 +787,8 @@ def apply_rules(text, rules, log, fn):
             text, k = r15_opaque(text, *r[1:])
         elif kind == "R10r":
             text, k = r10_result_map_chain(text, *r[1:])
+        elif kind == "R22":
+            text, k = r22_canonical_local(text, r[1], r[2])
         elif kind == "R10f":
             text, k = r10_option_filter(text, *r[1:])
         elif kind == "R10p":
